@@ -70,7 +70,7 @@ def on_result(ctx, sess, res, case):
 
 def plan(tier, seed):
     quick = tier == "quick"
-    return {"nshards": 16, "params": {"soft_s": 1500 if quick else 5400, "nprograms": 10 if quick else 110, "ninputs": 4 if quick else 8}, "hard_timeout_s": 2700 if quick else 9000}
+    return {"nshards": 16, "params": {"soft_s": 1500 if quick else 5400, "nprograms": 10 if quick else 40, "ninputs": 4 if quick else 8}, "hard_timeout_s": 2700 if quick else 9000}
 
 
 def _templates(rng):
